@@ -3,6 +3,15 @@
 import json
 ALL = ["C%02d" % i for i in range(1, 21)]
 CHECKS = {
+ "C12": dict(level="exploration", technique="bounded-exhaustive enumeration of word sets and Add histories with Myhill-Nerode (right-language) minimality oracle",
+   text="Every subset of the 15 binary words of length <=3, of the 13 words of length <=2 over {0x00,'m',0xff} and every subset of size <=5 (6 thorough) of the 31 binary words of length <=4 is built; Lookup is compared on every probe string up to one letter longer over the alphabet plus a foreign letter (membership and lexicographic rank), NumberOfWords, the accepted language read from the node graph, and node count = number of distinct right languages. Every Add sequence of length <=6 (7) over the 7 words of length <=2 plus nil: error exactly for words not above the last accepted one, finished automaton = automaton of the accepted words.",
+   note="Trusted: reflection walk of the node graph by type shape, right-language oracle. Callers do not modify slices passed to Add.", ref="§3 C12"),
+ "C13": dict(level="exploration", technique="bounded-exhaustive enumeration of word sets x queries against the definition of matching, each search repeated with the same searcher objects",
+   text="All 32768 binary word sets (length <=3) x every pattern and every anagram letter sequence of length <=2 (all of length <=4 on an eighth of the sets in quick, on all sets in thorough) with blank '?' and with a letter as blank, plus all pattern+anagram pairs on the 128 sets of words of length <=2: result words, order and ranks equal the sorted word list filtered by the definition, a second Search with the same searchers gives the same result, the automaton snapshot is unchanged.",
+   note="Trusted: the matching definitions (20 lines). Only the library's two searcher types.", ref="§3 C13"),
+ "C14": dict(level="exploration", technique="bounded-exhaustive enumeration plus boundary families (every branching 0..256, node/word counts across varint boundaries), crash-isolated round-trip comparison",
+   text="Word sets as in C12 (a quarter in quick) plus families reaching every encoding boundary are encoded with GobEncode and through encoding/gob, decoded into fresh and non-empty receivers in worker subprocesses (a corrupt count can otherwise kill the process), and compared on language, ranks, NumberOfWords, node count, a battery of pattern/anagram searches and byte-identical re-encoding.",
+   note="Trusted: reflection snapshot; worker isolation (address-space limit 12 GB, 180 s per case).", ref="§3 C14"),
  "C20": dict(level="fault_enumeration", technique="exhaustive fault-position enumeration through the io.Writer seam plus exhaustive weight functions over a value set",
    text="Fault-free: every weight function over a 7-value set (with MinInt64/MaxInt64) for n<=3, over 4 values for n=4 (7 in thorough) and 2 for n=5 is written and parsed back line by line (header, DIMENSION, row shapes, every weight, EOF, weights only called with 0<=j<i<n). Faults: for every (n<=4, weight function over 3 values) the W underlying Write calls are counted and every position p<W x {permanent, transient} x {zero, short count} is injected; LIB must return non-nil.",
    note="Trusted: the fault-injecting writer (30 lines). The writer obeys the io.Writer contract.", ref="§3 C20"),
